@@ -753,8 +753,22 @@ def same_unordered(a, b):
     return same(a, b)
 
 
-def matrix_of(hexrows):
-    return None if hexrows is None else [[float.fromhex(x) for x in row] for row in hexrows]
+def num_of(x):
+    """a matrix entry of a case: a float (hex string) or an integer JSON number (['i', decimal])"""
+    return int(x[1]) if isinstance(x, list) else float.fromhex(x)
+
+
+def matrix_of(rows):
+    """the matrix exactly as the content holds it: Python floats and ints"""
+    return None if rows is None else [[num_of(x) for x in row] for row in rows]
+
+
+def matrix_has_int(rows):
+    return rows is not None and any(isinstance(x, list) for row in rows for x in row)
+
+
+def float_matrix(rows):
+    return [[float(num_of(x)) for x in row] for row in rows]
 
 
 def truth_initial(case):
@@ -853,7 +867,32 @@ CORRUPTIONS = ['del_req', 'bad_count', 'dup_key', 'slice_dim_bad', 'shape_len', 
 FORMATS = {'nii': '.nii', 'niigz': '.nii.gz', 'pair': '.img'}
 
 
-def gen_affine(rng):
+INT_ENTRIES = [0, 1, -1, 2, 3, -2, 10, 2 ** 31, 2 ** 53, 2 ** 53 + 1, -(2 ** 53) - 1, 2 ** 62 + 1, 9007199254740993, 123456789012345678]
+
+
+def gen_affine(rng, ints=0.25):
+    """a 4x4 matrix: floats as dcmstack itself writes them, or - as from_runtime_repr / third-party JSON may hold -
+    integer JSON numbers: an all-int matrix, a mix of ints and floats, ints beyond 2**53"""
+    if rng.random() < ints:
+        r = rng.random()
+        if r < 0.3:      # integer identity / permutation-like
+            m = [[['i', str(int(i == j) * rng.choice([1, 1, 2, -1, 3]))] for j in range(4)] for i in range(3)]
+            m.append([['i', '0'], ['i', '0'], ['i', '0'], ['i', '1']])
+            return m
+        m = []
+        for i in range(3):
+            row = []
+            for j in range(4):
+                q = rng.random()
+                if q < 0.45:
+                    row.append(['i', str(rng.choice(INT_ENTRIES))])
+                elif q < 0.6:
+                    row.append(['i', str(rng.randrange(-1000, 1000))])
+                else:
+                    row.append(rng.choice([0.0, 1.0, 0.5, -2.5, rng.uniform(-3, 3)]).hex())
+            m.append(row)
+        m.append([rng.choice([['i', '0'], (0.0).hex()]) for _ in range(3)] + [rng.choice([['i', '1'], (1.0).hex()])])
+        return m
     r = rng.random()
     if r < 0.3:
         m = [[1.0, 0.0, 0.0, 0.0], [0.0, 1.0, 0.0, 0.0], [0.0, 0.0, 1.0, 0.0], [0.0, 0.0, 0.0, 1.0]]
@@ -917,10 +956,16 @@ def gen_ext_case(rng, depth, corrupt=None, hostile=False):
         kind += '/v0.5'
     if stale:
         kind += '/stale'
-    return {'kind': kind, 'shape': shape, 'slice_dim': slice_dim, 'affine': gen_affine(rng), 'reorient': reorient,
+    affine = gen_affine(rng)
+    hdr_slice = rng.choice([None, 0, 1, 2])
+    if matrix_has_int(affine) or matrix_has_int(reorient):
+        kind += '/intmatrix'
+    kind += '/sd%s-hdr%s' % ('N' if slice_dim is None else slice_dim, 'N' if hdr_slice is None else hdr_slice)
+    return {'kind': kind, 'shape': shape, 'slice_dim': slice_dim, 'affine': affine, 'reorient': reorient,
             'entries': entries, 'extra': extra, 'stale': stale, 'version': version, 'corrupt': corrupt,
             'csel': rng.randrange(1000),
             'build': 'make_empty' if corrupt else rng.choice(['make_empty', 'make_empty', 'runtime', 'json']),
+            'hdr_slice': hdr_slice,      # dim_info of the NIfTI header, independent of the extension's slice dim
             'endian': '>' if rng.random() < 0.2 else '<',
             'foreign': rng.choice([None, None, None, 'before', 'after', 'both']),
             'formats': ['nii', 'niigz'] + (['pair'] if rng.random() < 0.25 else []),
@@ -938,12 +983,16 @@ def build_ext(case):
     elif build == 'json':
         ext = DcmMetaExtension.from_json(json.dumps(truth_initial(case)))      # compact stdlib text of the truth
     else:
-        aff = np.array(matrix_of(case['affine']))
-        reo = None if case['reorient'] is None else np.array(matrix_of(case['reorient']))
+        aff = np.array(float_matrix(case['affine']))
+        reo = None if case['reorient'] is None else np.array(float_matrix(case['reorient']))
         ext = DcmMetaExtension.make_empty(tuple(case['shape']), aff, reo, case['slice_dim'])
         for base, sub, k, v in case['entries']:
             ext.get_class_dict((base, sub))[ks(k)] = dec(v)
         content = content_of(ext)
+        if matrix_has_int(case['affine']):
+            content['dcmmeta_affine'] = matrix_of(case['affine'])
+        if matrix_has_int(case['reorient']):
+            content['dcmmeta_reorient_transform'] = matrix_of(case['reorient'])
         for k, v in case.get('extra', []):
             content[ks(k)] = dec(v)
         from collections import OrderedDict
@@ -1011,7 +1060,14 @@ def make_image(case, ext):
 
     def build(cls):
         hdr = cls.header_class(endianness='>') if case.get('endian') == '>' else None
-        img = cls(np.zeros(tuple(case['shape']), dtype=np.int16), np.array(matrix_of(case['affine'])), header=hdr)
+        aff = np.array(float_matrix(case['affine']))
+        if not all(x == 0 or 1e-3 <= abs(x) <= 1e3 for x in aff.ravel()):
+            # the extension keeps the case's affine (any floats); the IMAGE gets a tame one: nibabel's qform code runs an
+            # SVD that does not terminate in reasonable time on matrices mixing subnormal and huge entries (not C09's subject)
+            aff = np.eye(4)
+        img = cls(np.zeros(tuple(case['shape']), dtype=np.int16), aff, header=hdr)
+        if case.get('hdr_slice') is not None:
+            img.header.set_dim_info(slice=case['hdr_slice'])
         f = case.get('foreign')
         if f in ('before', 'both'):
             img.header.extensions.append(Nifti1Extension('comment', b'{"not": "a dcmmeta extension"}'))
@@ -1195,7 +1251,9 @@ class Ext:
     SHARD = 10
     IMPL_TIMEOUT = 60
     RULE = ("valid DcmMetaExtensions of every shape class, version 0.6 and 0.5, with and without stale base dictionaries and "
-            "extra top-level keys, built by make_empty + API, by from_runtime_repr or by from_json of the generator's truth; "
+            "extra top-level keys, affine / reorient matrices of floats or of integer JSON numbers (all-int, mixed, beyond 2**53), "
+            "every combination of extension slice dim {None,0,1,2} x NIfTI header dim_info slice {None,0,1,2}, "
+            "built by make_empty + API, by from_runtime_repr or by from_json of the generator's truth; "
             "expected content computed from the case alone; observed: content before any call, to_json, str, content after, "
             "and reloads through from_json(str), from_json(bytes), from_runtime_repr and 1-4 save/load cycles through .nii, "
             ".nii.gz (sometimes a .hdr/.img pair; little/big endian; other extensions beside ours; saving onto the loaded "
@@ -1367,7 +1425,7 @@ class Ext:
         ents = case['entries']
         for field, small in (('extra', []), ('stale', []), ('reorient', None), ('foreign', None), ('endian', '<'),
                              ('same_path', False), ('cycles', 1), ('formats', ['nii']), ('formats', ['niigz']),
-                             ('build', 'make_empty')):
+                             ('build', 'make_empty'), ('hdr_slice', None)):
             if case.get(field) != small and not (field == 'reorient' and case.get('version') == 0.5):
                 c = dict(case); c[field] = small
                 yield c
@@ -1741,7 +1799,7 @@ class Hist:
                 if len(g['edits']) > 1:
                     g2 = dict(g, edits=g['edits'][:j] + g['edits'][j + 1:])
                     cands.append(dict(case, hist=dict(h, groups=groups[:i] + [g2] + groups[i + 1:])))
-        for field, small in (('extra', []), ('stale', []), ('reorient', None), ('foreign', None), ('endian', '<')):
+        for field, small in (('extra', []), ('stale', []), ('reorient', None), ('foreign', None), ('endian', '<'), ('hdr_slice', None)):
             if case.get(field) != small and not (field == 'reorient' and case.get('version') == 0.5):
                 cands.append(dict(case, **{field: small}))
         for field, small in (('same_path', False), ('reload_every', 0), ('touch', 'none')):
